@@ -107,6 +107,17 @@ def run(ev, vd):
         r = tlc(os.path.join(SP, "DGTerm.tla"), cfg=os.path.join(SP, cfg), workers=NCPU, timeout=900)
         if r.ok:
             raise ToolError("DGTerm accepts %s (vacuous model?)" % cfg)
+    # the bulk-asynchronous loop (operator, selective async sync, detector contract) on a cut graph
+    for cfg in ("MCGluonAsync.cfg", "MCGluonAsync_h3.cfg"):
+        r = tlc(os.path.join(SP, "MCGluonAsync.tla"), cfg=os.path.join(SP, cfg), workers=NCPU, timeout=1800)
+        ev.add_tlc(cfg, r)
+        if not r.ok:
+            raise ToolError("GluonAsync (%s) violates %s:\n%s" % (cfg, r.violation, r.out[-1500:]))
+    # mutant: master not flagged after a reduce; dense: the enforced dense encoding never becomes quiescent (finding D17 of C20 at design level)
+    for cfg, want in (("MCGluonAsync_mutant.cfg", "Correct"), ("MCGluonAsync_dense.cfg", "liveness")):
+        r = tlc(os.path.join(SP, "MCGluonAsync.tla"), cfg=os.path.join(SP, cfg), workers=NCPU, timeout=900)
+        if r.ok or want not in str(r.violation):
+            raise ToolError("GluonAsync: %s should be rejected for %s, got %s (vacuous model?)" % (cfg, want, r.violation))
     trace = os.path.join(BUILD, "tmp", "gluon.ndjson")
     run_cases(ev, vd, 40 if tier() == "thorough" else 20, trace)
     judge(ev, vd, trace, ("sync",))
